@@ -143,6 +143,10 @@ def run(cx):
     inst_sibling_accounting(cx, "C05.q")
     from props.C01 import inst_id_arith
     inst_id_arith(cx, "C05.r")
+    # every packet is delivered only if the window walks clear exactly the slots the window passed: clearing the slot
+    # at the new base discards a partially reassembled packet whose earlier fragments were already acknowledged
+    from props.shared import window_walks
+    window_walks(cx, "C05.s")
     with cx.instance("C05.e", "T3 WHO-MAY", "the send queue loses packets only through the stale-TimeSensitive drop and the move into the send window", floor=2) as inst:
         b = R.body("PacketSender::emit_packet")
         pops = call_sites(b, "VecDeque::pop_front", r"arg1\.packet_send_queue")
